@@ -164,6 +164,30 @@ def _variant(channel, cls, label):
     return labels.index(label)
 
 
+class StuckAssemblerCoc(rigs.LeCocRig):
+    """the victim's LE credit based channel stops delivering SDUs once it has seen an SDU longer than its MTU (assembler
+    stuck mid-message), and stays connected"""
+
+    def prepare_victim(self):
+        from bumble import l2cap
+
+        self.victim_channels = []
+
+        def on_channel(ch):
+            self.victim_channels.append(ch)
+            stuck = []
+
+            def sink(sdu):
+                if len(sdu) > self.MTU:
+                    stuck.append(1)
+                if not stuck:
+                    ch.write(b"echo:" + sdu)
+
+            ch.sink = sink
+
+        self.victim.create_l2cap_server(l2cap.LeCreditBasedChannelSpec(psm=self.PSM, mtu=self.MTU, mps=self.MPS, max_credits=64), on_channel)
+
+
 SHIMS = [
     # name, rig, channel, sequences, event at which the trace must be rejected
     ("wedged-reader", WedgedAtt, "att", [("empty",), ("empty", "valid")], "probe_ok"),
@@ -171,6 +195,7 @@ SHIMS = [
     ("busy-loop-inline", SpinAtt, "att", [("empty",)], "done"),
     ("swallowed-recursion", RecursiveAtt, "att", [("empty",)], "done"),
     ("connection-dropped", DroppingAtt, "att", [("empty",)], "alive"),
+    ("coc-assembler-stuck-after-sdu-over-mtu", StuckAssemblerCoc, "le_coc", [("coc_sdu_over_mtu",), ("coc_sdu_over_mtu", "coc_sdu_over_mtu")], "probe_ok"),
     ("ag-parse-before-consume", OldReaderAgRig, "hfp_ag", [("at_unknown",), ("at_paren",), ("at_nonutf8",)], "probe_ok"),
     # the enumerated classes: one named instance each (sequence, variants)
     ("smp-session-dead-after-contained-exception", DeadSessionSmpRig, "smp",
@@ -235,6 +260,14 @@ def run(ctx, rep, validate):
     v = copy.deepcopy(txn)
     v["trace"][0]["txn"] = False
     variants["advance-not-a-transaction-step"] = v
+    # an LE credit based channel the victim left open after complete SDUs only: the reference request is owed on it
+    coc = R.run_sequence("le_coc", ("coc_sdu_over_mtu",), R.seq_seed(ctx.seed, "le_coc", ("coc_sdu_over_mtu",), 7))
+    if [e["e"] for e in coc["trace"]] != ["inject", "done", "alive", "probe", "probe_ok"]:
+        raise rigs.RigError(f"self-test: unexpected trace of le_coc/(coc_sdu_over_mtu): {coc['trace']}")
+    variants["control-same-channel"] = copy.deepcopy(coc)
+    v = copy.deepcopy(coc)
+    v["trace"].insert(3, R.ev("reopen", ok=True))
+    variants["probe-moved-to-fresh-channel-without-cause"] = v
     names = list(variants)
     r2 = core.Report(rep.prop, rep.level)
     rejected = validate(ctx, r2, [variants[n] for n in names], 4)
